@@ -36,7 +36,7 @@ type s2Fault struct {
 type s2Msg struct {
 	ID     string    `json:"id"`
 	Rcpts  []string  `json:"rcpts"`
-	Faults []s2Fault `json:"faults"` // Faults[a-1] applies to attempt a; later attempts succeed
+	Faults [][]s2Fault `json:"faults"` // Faults[a-1] (1-2 injected results) applies to attempt a; later attempts succeed
 }
 
 type s2Scenario struct {
@@ -83,7 +83,12 @@ func genS2(p *prng.R, caseIdx int) s2Scenario {
 				default:
 					f.Stage = st
 				}
-				m.Faults = append(m.Faults, f)
+				fs := []s2Fault{f}
+				if f.Stage == "rcpt" && f.Rcpt >= 0 && f.Class == mx.Perm && p.Bool() {
+					// one recipient refused for good, the rest fails temporarily in the same attempt
+					fs = append(fs, s2Fault{Stage: prng.Pick(p, []string{"body", "commit"}), Rcpt: -1, Class: mx.Temp, Var: p.Intn(3)})
+				}
+				m.Faults = append(m.Faults, fs)
 			}
 			ms = append(ms, m)
 		}
@@ -116,8 +121,11 @@ func (sc s2Scenario) shape() string {
 	for _, ms := range sc.Enqueuers {
 		for _, m := range ms {
 			s := fmt.Sprintf("%d:", len(m.Rcpts))
-			for _, x := range m.Faults {
-				s += x.Stage[:2] + x.Class[:1]
+			for _, fs := range m.Faults {
+				for _, x := range fs {
+					s += x.Stage[:2] + x.Class[:1]
+				}
+				s += "."
 			}
 			f = append(f, s)
 		}
@@ -247,14 +255,16 @@ func (m *s2Mon) script(pt mx.Point) error {
 	if a < 1 || a > len(msg.Faults) {
 		return nil
 	}
-	f := msg.Faults[a-1]
-	if f.Stage != pt.Stage {
-		return nil
+	for _, f := range msg.Faults[a-1] {
+		if f.Stage != pt.Stage {
+			continue
+		}
+		if f.Rcpt >= 0 && (f.Rcpt >= len(msg.Rcpts) || msg.Rcpts[f.Rcpt] != pt.Rcpt) {
+			continue
+		}
+		return mx.MakeErr(f.Class, f.Var, "c12")
 	}
-	if f.Rcpt >= 0 && (f.Rcpt >= len(msg.Rcpts) || msg.Rcpts[f.Rcpt] != pt.Rcpt) {
-		return nil
-	}
-	return mx.MakeErr(f.Class, f.Var, "c12")
+	return nil
 }
 
 // rcptState condenses what a target log says about one recipient of one message.
@@ -330,8 +340,10 @@ func runS2(t *testing.T, r *rep.Reporter, env instrEnv, ys yieldStats) {
 	for i := 0; i < n0; i++ {
 		idx := baseS2d0 + i
 		r.Run(idx, fmt.Sprintf("s2-d0-%d", i), func(c *rep.Case) {
-			p := prng.New(r.Seed(), uint64(idx), "c12/s2")
-			s2Case(t, c, r, ys, p, genS2(p, idx), stressPlan(p))
+			onReplayRepeat(r, c, 100, func() {
+				p := prng.New(r.Seed(), uint64(idx), "c12/s2")
+				s2Case(t, c, r, ys, p, genS2(p, idx), stressPlan(p))
+			})
 		})
 	}
 	reps1 := r.N(3, 30)
@@ -343,8 +355,10 @@ func runS2(t *testing.T, r *rep.Reporter, env instrEnv, ys yieldStats) {
 				k++
 				site, occ := site, occ
 				r.Run(idx, fmt.Sprintf("s2-d1-%s#%d-r%d", site, occ, rp), func(c *rep.Case) {
-					p := prng.New(r.Seed(), uint64(idx), "c12/s2")
-					s2Case(t, c, r, ys, p, genS2(p, idx), planSpec{D: 1, Points: []verifkit.PlanPoint{{Site: site, Occ: occ}}})
+					onReplayRepeat(r, c, 100, func() {
+						p := prng.New(r.Seed(), uint64(idx), "c12/s2")
+						s2Case(t, c, r, ys, p, genS2(p, idx), planSpec{D: 1, Points: []verifkit.PlanPoint{{Site: site, Occ: occ}}})
+					})
 				})
 			}
 		}
@@ -356,13 +370,15 @@ func runS2(t *testing.T, r *rep.Reporter, env instrEnv, ys yieldStats) {
 	for i := 0; i < n2; i++ {
 		idx := baseS2d2 + i
 		r.Run(idx, fmt.Sprintf("s2-d2-%d", i), func(c *rep.Case) {
-			p := prng.New(r.Seed(), uint64(idx), "c12/s2")
-			a := verifkit.PlanPoint{Site: prng.Pick(p, env.all), Occ: p.Range(1, 6)}
-			b := verifkit.PlanPoint{Site: prng.Pick(p, env.all), Occ: p.Range(1, 6)}
-			if a == b {
-				b.Occ++
-			}
-			s2Case(t, c, r, ys, p, genS2(p, idx), planSpec{D: 2, Points: []verifkit.PlanPoint{a, b}})
+			onReplayRepeat(r, c, 100, func() {
+				p := prng.New(r.Seed(), uint64(idx), "c12/s2")
+				a := verifkit.PlanPoint{Site: prng.Pick(p, env.all), Occ: p.Range(1, 6)}
+				b := verifkit.PlanPoint{Site: prng.Pick(p, env.all), Occ: p.Range(1, 6)}
+				if a == b {
+					b.Occ++
+				}
+				s2Case(t, c, r, ys, p, genS2(p, idx), planSpec{D: 2, Points: []verifkit.PlanPoint{a, b}})
+			})
 		})
 	}
 	r.Set("s2_d2_sampled_pairs", n2)
